@@ -183,7 +183,7 @@ struct PerPacket {
 }
 
 pub fn run(ctx: &mut Ctx) {
-    let n = ctx.scale(12_000, 300_000, 3);
+    let n = ctx.scale(40_000, 600_000, 3);
     let db = scenario::db_static();
     let combos: Vec<(bool, bool, bool, bool)> = (0..16).map(|i| (i & 1 != 0, i & 2 != 0, i & 4 != 0, i & 8 != 0)).collect();
     for t in 0..n {
